@@ -147,7 +147,17 @@ func checkC03() *checkDef {
 		DesignRef: "DESIGN.md section 4 C03, appendix B1",
 		Rule:        "all (policy, default, header class, gap pattern) tuples, three requests each; distinct by tuple; non-trivial = distinct contact/hit pattern with its must/must-not classification",
 		Assumptions: seqAssumptions,
-		Runs:        freshRuns,
+		Runs: func(tier string) []run {
+			// the policy switched while an exchange is in flight: the response is stored / refreshed under
+			// the policy in force when it arrives (all schedules within K/F of the switch vs the exchange)
+			var pp []psched
+			for _, be := range []string{"memory", "file"} {
+				for _, start := range []string{"cold", "stale-304", "stale-200"} {
+					pp = append(pp, psched{Name: "policy-switched-in-flight/" + start + "/" + be, Backend: be, Clients: 1, Start: start, Outcome: "cacheable", Policy: "force-1s", Prop: "C03"})
+				}
+			}
+			return append(freshRuns(tier), run{Pkg: "./proxy", Scenario: "proxy/sched", Params: pp, K: 2, E: 1, F: 1, Horizon: 8000})
+		},
 	}
 }
 
@@ -339,6 +349,7 @@ type psched struct {
 	TickS    int   `json:"tick_s,omitempty"`
 	LimitTo  int64 `json:"limit_to,omitempty"`
 	Overwrite string `json:"overwrite,omitempty"`
+	Policy    string `json:"policy,omitempty"`
 }
 
 func coalescingScenarios(prop string, clients int) []psched {
@@ -425,6 +436,8 @@ func checkC16() *checkDef {
 				// login bodies / stored hashes: whatever the answer, there is one and nothing panics
 				{Pkg: "./webserver/api", Scenario: "api/routes", Params: map[string]any{}, Workers: 1},
 				{Pkg: "./webserver/api", Scenario: "api/login", Params: map[string]any{}, Workers: 1},
+				// every JSON value shape at every position of an update document
+				{Pkg: "./config", Scenario: "config/doc-shapes", Params: map[string]any{}, Workers: 1},
 			}
 		},
 	}
@@ -471,6 +484,7 @@ func checkC18() *checkDef {
 			return []run{
 				{Pkg: "./config", Scenario: "config/update", Params: map[string]any{"depth": d}},
 				{Pkg: "./config", Scenario: "config/persist-faults", Params: map[string]any{}},
+				{Pkg: "./config", Scenario: "config/doc-shapes", Params: map[string]any{}, Workers: 1},
 				{Pkg: "./proxy", Scenario: "proxy/config-workable", Params: map[string]any{}, Workers: 4},
 			}
 		},
@@ -507,6 +521,7 @@ type evSched struct {
 	Pre      []string   `json:"pre"`
 	Prop     string     `json:"prop"`
 	LastWins bool       `json:"last_wins"`
+	OthersNotified []int `json:"others_notified,omitempty"`
 }
 
 func eventRaceScenarios() []evSched {
@@ -546,6 +561,10 @@ func checkC19() *checkDef {
 			sc := []evSched{
 				{Name: "back-to-back-changes", Pre: []string{"S0"}, Threads: [][]string{{"F1", "F2"}}, Prop: "C19", LastWins: true},
 				{Name: "back-to-back-changes-2-listeners", Pre: []string{"S0", "S1"}, Threads: [][]string{{"F1", "F2"}}, Prop: "C19", LastWins: true},
+				// one listener is shut down while a change is being handed out: the others still get it, once
+				{Name: "unsubscribe-first-vs-fire", Pre: []string{"S0", "S1", "S2"}, Threads: [][]string{{"U0"}, {"F5"}}, Prop: "C19", OthersNotified: []int{1, 2}},
+				{Name: "unsubscribe-middle-vs-fire", Pre: []string{"S0", "S1", "S2"}, Threads: [][]string{{"U1"}, {"F5"}}, Prop: "C19", OthersNotified: []int{0, 2}},
+				{Name: "unsubscribe-last-vs-fire", Pre: []string{"S0", "S1", "S2"}, Threads: [][]string{{"U2"}, {"F5"}}, Prop: "C19", OthersNotified: []int{0, 1}},
 			}
 			return []run{
 				{Pkg: "./utils/event", Scenario: "event/seq", Params: map[string]int{"listeners": 3, "depth": depth}},
@@ -718,6 +737,12 @@ func checkC12() *checkDef {
 						Init:    []string{"S:a:300", "Se:c:100", "T"},
 						Threads: [][]string{{"S:b:100"}, {"D:a", "S:c:50"}},
 						Final:   []string{"Q", "T", "Q"}})
+					// observed at the FIRST quiescent moment (no further cycle that would republish the size into the
+					// exported metric): a store / delete completing while a cleanup or eviction pass is under way
+					ps = append(ps, sched{Name: name("store-during-cleanup-pass"), cp: base, Prop: "C12", Checks: []string{"counters"},
+						Init:    []string{"S:a:300", "Se:c:100", "T"},
+						Threads: [][]string{{"S:b:100"}, {"D:a"}},
+						Final:   []string{"Q"}})
 					ps = append(ps, sched{Name: name("overwrite-vs-get"), cp: base, Prop: "C12", Checks: []string{"counters"},
 						Init:    []string{"S:a:100"},
 						Threads: [][]string{{"S:a:50"}, {"G:a", "D:a"}},
@@ -782,6 +807,16 @@ func checkC14() *checkDef {
 					ps = append(ps, sched{Name: name("config-vs-destroy"), cp: base, Prop: "C14",
 						Init:    []string{"S:a:300"},
 						Threads: [][]string{{"I:500", "I:700"}, {"X"}},
+						Final:   []string{"Q"}})
+					// shutdown: the context is cancelled (the janitor exits), settings still change, then Destroy:
+					// "stopping the cache never blocks", whatever is still in flight towards the dead janitor
+					ps = append(ps, sched{Name: name("shutdown-vs-config"), cp: base, Prop: "C14",
+						Init:    []string{"S:a:300"},
+						Threads: [][]string{{"C", "I:500", "I:700", "L:400"}, {"X"}},
+						Final:   []string{"Q"}})
+					ps = append(ps, sched{Name: name("cancel-changes-destroy"), cp: base, Prop: "C14",
+						Init:    []string{"S:a:300", "C", "Q", "I:500", "I:700", "Q"},
+						Threads: [][]string{{"X"}, {"L:400"}},
 						Final:   []string{"Q"}})
 				}
 			}
